@@ -910,8 +910,8 @@ func implScan(c *scanCase) (o scanObs) {
 	}()
 	select {
 	case err = <-done:
-	case <-time.After(20 * time.Second):
-		return scanObs{line: "HANG", panicked: "Get did not return within 20s"}
+	case <-time.After(60 * time.Second):
+		return scanObs{line: "HANG", panicked: "Get did not return within 60s"}
 	}
 	o.after = printDests(c.dests)
 	o.leak = releaseCheck(sqldb, f)
